@@ -78,7 +78,7 @@ let event_str = function
   | M.WConnect c -> Printf.sprintf "C%d" (int_of_nat c)
   | M.WTls c -> Printf.sprintf "T%d" (int_of_nat c)
   | M.WSend (c, tls, d) -> Printf.sprintf "S%d:%d:%s" (int_of_nat c) (if tls then 1 else 0) (hb d)
-  | M.WMark (c, _) -> Printf.sprintf "M%d" (int_of_nat c)
+  | M.WMark c -> Printf.sprintf "M%d" (int_of_nat c)
 
 let parg_str = function
   | M.PStr s -> "s:" ^ hb s
